@@ -228,6 +228,21 @@ check("C14", "exploration",
       "runtime monitoring: round-trip oracle through independent format readers over generated hostile values and option combinations, with witness reduction",
       "DESIGN.md §3 C14")
 
+check("C15", "exploration",
+      "Performs the same evaluation through the library API (reference), the `jrsonnet` executable, libjsonnet.so (a C driver "
+      "exercising settings, file / snippet x plain / multi / stream entry points, an import callback and native callbacks "
+      "written in C; a sample under valgrind memcheck) and `jrsonnet-deps`, over generated file trees (relative imports, three "
+      "library dirs with a shadowed name, importstr / importbin, chains, a file both imported and importstr'ed, imports in "
+      "unevaluated positions) x programs x option configurations (each ext / tla flavour incl. from environment and from "
+      "file, 0-3 -J dirs + JSONNET_PATH, -S / -y / -f / -m / -o / -c / --line-padding, --max-stack, file / -e / stdin input) "
+      "plus a directed grid of output mode x value shape x input kind. Requires identical text and exit status / error flag, "
+      "identical files for -m / -o, exact double-NUL framing, and the exact static import closure from jrsonnet-deps, which "
+      "must contain every file an evaluation loaded.",
+      "Errors are compared by flag (and non-empty message), not by which of several possible errors is reported. The "
+      "C driver follows bindings/c/libjsonnet.h; the memcheck sample covers only the scripts it runs.",
+      "runtime monitoring: differential oracle across four interfaces to the same evaluation + valgrind memcheck on the C boundary",
+      "DESIGN.md §3 C15")
+
 NOT_APPLICABLE = []
 
 
